@@ -65,6 +65,13 @@ class Executor:
 
     def _build(self, item):
         kind = item["kind"]
+        if kind == "process" and item.get("reexpress"):
+            base = dict(item)
+            u = base.pop("reexpress")
+            pm = self._build(base)
+            pm.permeances = [(p_[0].convert(to_units=u, component=pm.mixture.first_component),
+                              p_[1].convert(to_units=u, component=pm.mixture.second_component)) for p_ in pm.permeances]
+            return pm
         if kind == "process":
             pv = self._pv(item)
             cond = build.conditions(item["cond"])
@@ -149,6 +156,8 @@ class Executor:
         elif k == "load_curve":
             out["n_curves"] = len(res.diffusion_curves)
             out["view"] = build.view_curve(res.diffusion_curves[0])
+            if op.get("via_membrane"):
+                out["sets"] = sorted(s_.name for s_ in (self._last_membrane.diffusion_curve_sets or []))
         elif k in ("save_fn", "load_fn"):
             out["view"] = build.view_fn(res)
         elif k in ("save_cond", "load_cond"):
@@ -175,6 +184,7 @@ class Executor:
         if k == "load_curve":
             if op.get("via_membrane"):
                 mem = Membrane.load(self._p(op["via_membrane"]))
+                self._last_membrane = mem
                 return build.curve_set(mem, op["set"])
             return DiffusionCurveSet.load(self._p(op["file"]))
         if k == "save_fn":
